@@ -5,6 +5,24 @@ import json, os, sys
 sys.path.insert(0, os.path.dirname(os.path.realpath(__file__)))
 import registry
 
+def technique(P):
+	kani = any(h["crate"] != "mir" for h in P["harnesses"])
+	drv = any(h["crate"] == "mir" and h.get("tool") != "objcheck" for h in P["harnesses"])
+	obj = any(h["crate"] == "mir" and h.get("tool") == "objcheck" for h in P["harnesses"])
+	parts = []
+	if kani:
+		parts.append("bounded model checking of the compiled crate (Kani 0.68 -> CBMC 6.11 -> cadical SAT): symbolic inputs, assertions against a reference, counter-examples replayed natively")
+	if drv:
+		parts.append("symbolic execution of the MIR of the driver loop (src/parse/value.rs, compiler dump of the current tree) with z3 deciding every branch on a symbolic character, "
+		             "against a reference pushdown recogniser, for every document up to the length bound; counter-example documents replayed on the real parser")
+	if obj:
+		parts.append("symbolic execution of the MIR of the functions named under this check (compiler dump of the current tree; drv/objcheck.py) with z3: object keys, fragment indices and code-map offsets are solver variables, "
+		             "every branch on them forks under the path condition, callees outside the crate are contract models, the result of every path is compared with a reference (list model / layout / recursive definition); "
+		             "counter-examples and a validation sample are replayed on the real code through a native helper built against /repo")
+	return "; plus ".join(parts)
+
+
+
 NA = registry.NOT_APPLICABLE
 checks = []
 for pid in sorted(registry.PROPS):
@@ -15,16 +33,14 @@ for pid in sorted(registry.PROPS):
 		thorough_cmd="./check %s --tier thorough" % pid,
 		evidence_file="evidence/%s.json" % pid,
 		replay_cmd_template="./check %s --replay {path}" % pid,
-		engine="kani-cbmc",
+		engine="kani-cbmc" if any(h["crate"] != "mir" for h in P["harnesses"]) else "mir-z3",
 		level_claimed=dict(
 			category="model_checking",
 			text=P["level_text"],
 			design_ref=P["design_ref"],
 		),
 		level_note=P["level_note"],
-		technique=("bounded model checking of the compiled crate (Kani 0.68 -> CBMC 6.11 -> cadical SAT): symbolic inputs, assertions against a reference, counter-examples replayed natively"
-		           + ("; plus symbolic execution of the MIR of the driver loop (src/parse/value.rs, compiler dump of the current tree) with z3 deciding every branch on a symbolic character, "
-		              "against a reference pushdown recogniser, for every document up to the length bound; counter-example documents replayed on the real parser" if any(h["crate"] == "mir" for h in P["harnesses"]) else "")),
+		technique=technique(P),
 	))
 m = dict(
 	version=1,
